@@ -20,7 +20,7 @@ use std::collections::{BTreeMap, BTreeSet};
 pub const META: PropMeta = PropMeta {
     id: "C16",
     level: "exploration",
-    rule: "cases = histories of 1..60 public builder calls over 5 probe paths and 4 substitute source paths: add_derives_for_all, add_attributes_for_all, add_derives_for / add_attributes_for x {specific, recursive}, TypeSubstitutes::{insert, insert_if_not_exists, extend} with valid arguments and with exactly one malformation per call (relative target, parenthesised generics on source or target, lifetime / absolute path / multi-segment path / qualified-self / nested-generic source argument, empty source path, empty target path, lifetime / tuple / array target argument), repeated and interleaved. Oracle: a sequential BTreeMap/BTreeSet model replayed over the same history: (a) the derive and attribute sets emitted on every item of a fixed probe registry (Top -> Mid -> Leaf, Other; Alone; a field-less Unit) must equal global + own path + recursive-from-ancestors, sorted and duplicate-free; (b) TypeSubstitutes::iter()/contains() must equal the model map (last insert/extend wins, insert_if_not_exists never replaces, key = path segments without generics); (c) each malformed call must be rejected with the documented error kind; (d) a rejected call must leave iter() unchanged. non-trivial = history with >= 1 rejected call and >= 1 overwrite; distinct by history hash.",
+    rule: "cases = histories of 1..60 public builder calls over 5 probe paths and 4 substitute source paths: add_derives_for_all, add_attributes_for_all, add_derives_for / add_attributes_for x {specific, recursive}, TypeSubstitutes::{insert, insert_if_not_exists, extend} with valid arguments and with exactly one malformation per call (relative target, parenthesised generics on source or target, lifetime / absolute path / multi-segment path / qualified-self / nested-generic source argument, empty source path, empty target path, lifetime / tuple / array target argument), repeated and interleaved. Oracle: a sequential BTreeMap/BTreeSet model replayed over the same history: (a) the derive and attribute sets emitted on every item of a fixed probe registry (Top -> Mid -> Leaf, Other; Alone; a field-less Unit; Basket -> Wrap<Apple>, Wrap<Pear>) must equal global + own path + recursive-from-ancestors, sorted and duplicate-free; (b) TypeSubstitutes::iter()/contains() must equal the model map (last insert/extend wins, insert_if_not_exists never replaces, key = path segments without generics); (c) each malformed call must be rejected with the documented error kind; (d) a rejected call must leave iter() unchanged. non-trivial = history with >= 1 rejected call and >= 1 overwrite; distinct by history hash.",
     assumptions: &["extend is modelled as sequential inserts that stop at the first rejected element"],
     required_counters: &["calls[insert]", "calls[insert_if_not_exists]", "calls[extend]", "calls[add_derives_for]", "rejected[ExpectedAbsolutePath]", "rejected[ExpectedAngleBracketGenerics]", "rejected[InvalidFromType]", "rejected[InvalidToType]", "rejected[EmptySubstitutePath]", "overwrites", "insert_if_not_exists_kept_old"],
     floor: (1500, 50_000),
@@ -38,7 +38,7 @@ pub enum Op {
     Extend(Vec<(String, String)>),
 }
 
-const PROBE_PATHS: [&str; 8] = ["krate::p::Top", "krate::p::Mid", "krate::p::Leaf", "krate::p::Other", "krate::p::Alone", "krate::p::Unit", "krate::p::Unknown", "krate::p::Unit"];
+const PROBE_PATHS: [&str; 12] = ["krate::p::Top", "krate::p::Mid", "krate::p::Leaf", "krate::p::Other", "krate::p::Alone", "krate::p::Unit", "krate::p::Unknown", "krate::p::Unit", "krate::p::Basket", "krate::p::Wrap", "krate::p::Pear", "krate::p::Apple"];
 const SRC_PATHS: [&str; 4] = ["krate::p::Other", "krate::p::Leaf", "x::Y", "Option"];
 
 pub fn probe_program() -> Program {
@@ -59,8 +59,19 @@ pub fn probe_program() -> Program {
         mk("Alone", vec![f("y", Ty::Prim(Prim::U16)), f("z", Ty::Prim(Prim::U16))]),
         // a field-less type: a recursive registration on it reaches nothing but the type itself
         Def { module: vec!["p".into()], name: "Unit".into(), params: vec![], kind: DefKind::Struct(Style::Unit, vec![]), docs: vec![] },
+        // 6, 7, 8, 9: one generic with two instantiations, each the only way to its argument
+        mk("Apple", vec![f("a", Ty::Prim(Prim::U8))]),
+        mk("Pear", vec![f("p", Ty::Prim(Prim::U16))]),
+        Def {
+            module: vec!["p".into()],
+            name: "Wrap".into(),
+            params: vec![ParamDecl { name: "T".into(), skipped: false, cfg: false, uint: false }],
+            kind: DefKind::Struct(Style::Named, vec![f("inner", Ty::Param(0)), f("n", Ty::Prim(Prim::U32))]),
+            docs: vec![],
+        },
+        mk("Basket", vec![f("first", Ty::Def(8, vec![Ty::Def(6, vec![])])), f("second", Ty::Option(Ty::Def(8, vec![Ty::Def(7, vec![])]).b()))]),
     ];
-    Program { krate: "krate".into(), defs, markers: vec![], roots: vec![Ty::Def(3, vec![]), Ty::Def(4, vec![]), Ty::Def(5, vec![])], prefix: vec![] }
+    Program { krate: "krate".into(), defs, markers: vec![], roots: vec![Ty::Def(3, vec![]), Ty::Def(4, vec![]), Ty::Def(5, vec![]), Ty::Def(9, vec![])], prefix: vec![] }
 }
 
 fn ancestors_or_self(path: &str) -> Vec<&'static str> {
@@ -71,6 +82,10 @@ fn ancestors_or_self(path: &str) -> Vec<&'static str> {
         "krate::p::Other" => vec!["krate::p::Other", "krate::p::Mid", "krate::p::Top"],
         "krate::p::Alone" => vec!["krate::p::Alone"],
         "krate::p::Unit" => vec!["krate::p::Unit"],
+        "krate::p::Basket" => vec!["krate::p::Basket"],
+        "krate::p::Wrap" => vec!["krate::p::Wrap", "krate::p::Basket"],
+        "krate::p::Apple" => vec!["krate::p::Apple", "krate::p::Wrap", "krate::p::Basket"],
+        "krate::p::Pear" => vec!["krate::p::Pear", "krate::p::Wrap", "krate::p::Basket"],
         _ => vec![],
     }
 }
